@@ -215,7 +215,7 @@ ADDED = {
     "C05": " Also decided: a command line rejected by clap returns Ok only for a help/version request; the answer grammar is decided as a language inclusion on the extracted output language of each writer method (F13), with no bare Write::write.",
     "C06": " Also decided, one structural necessary condition per configuration axis (not the equality of statuses itself): encoding - disjoint variable families and the reference clause shapes for each encoder (rules of C10), and the CLI picks the encoder of the base semantics for every --encoding value; certificate flag - the shortcut used only without a certificate quantifies over the listed arguments like the full search; back end / repetition - searches constrain the solver only through the split of the current set and the selector, and a selector made for one SAT call is retired negatively (query-local clauses never outlive the call).",
     "C07": " Also decided: an accumulating loop over the query list is never left early, and the per-component selection of listed arguments is not switched off by a flag set in an earlier iteration.",
-    "C08": " Also decided: a query reads only the cache of its own kind; the guarded clauses issued when an argument is re-encoded by the selector-based encoder have exactly the shapes of the static complete / stable encodings (F12), with the attacker ids of iter_attacks_to(argument).",
+    "C08": " Also decided: a query reads only the cache of its own kind; the guarded clauses issued when an argument is re-encoded by the selector-based encoder have exactly the shapes of the static complete / stable encodings (F12), with the attacker ids of iter_attacks_to(argument); the attack-assumption encoder's two full encodings issue exactly the clause shapes of the stable / complete encoding with switchable attacks (literals evaluated to polynomials in the slot variables, the slot count and n_vars()), and an attack's assumption is +att(slot(attacked), slot(attacker)) at its own position.",
     "C09": " Also decided: the freshness test guarding the encoder tables is a by-label look-up or ONE counting function compared before/after; the cache barriers and log/replay obligations of C08; index-pairing of the framework store.",
     "C11": " Also decided: literal provenance across component frameworks; the grounded propagation counts stored attacks with the same multiplicity when it initialises and when it decrements its counters.",
     "C12": " Also decided: an entry is removed from a per-argument index list at the position found by searching that same list.",
